@@ -42,7 +42,10 @@ pub fn c18_extra(chk: &Check, _tier: Tier, heavy: &std::sync::atomic::AtomicU64)
     engine::record(chk, &sys, &out, None);
     heavy.fetch_add(out.transitions + out.probes, Ordering::Relaxed);
     for t in [0u64, 2] {
-        let sys = polling::PollSys::new("C18", 2, t, 1, &v3, false, polling::PReport { alloc: true, ..Default::default() }).with_pumps(2);
+        let mut sys = polling::PollSys::new("C18", 2, t, 1, &v3, false, polling::PReport { alloc: true, ..Default::default() });
+        if t == 0 {
+            sys = sys.with_pumps(2);
+        }
         let out = xs::explore(&sys, &lim);
         engine::record(chk, &sys, &out, None);
         heavy.fetch_add(out.transitions + out.probes, Ordering::Relaxed);
